@@ -443,6 +443,227 @@ def rule_f_independent_keys(ctx, wfns, accfns):
     return n
 
 
+G_EXEMPT = {
+    "quantification units": "redundant analogue of `image scaling factor` for another reader: STIR's reader consults it only when every "
+    "image scaling factor it read is 1, and the writer always writes the scaling factors it differs from",
+}
+
+
+def _const_of(n):
+    """a literal or a named class constant, as a comparable value (None when n is neither)"""
+    n = n.strip()
+    while n.k in ("CXXFunctionalCastExpr", "CStyleCastExpr", "CXXStaticCastExpr", "UnaryOperator") and n.c and (n.k != "UnaryOperator" or n.op in ("+",)):
+        n = n.c[0].strip()
+    if n.k in ("IntegerLiteral", "FloatingLiteral"):
+        return float(n.get("v"))
+    if n.k == "CXXBoolLiteralExpr":
+        return float(bool(n.get("v")))
+    if n.k == "StringLiteral":
+        return "str:" + (n.get("v") or "")
+    if n.k in ("DeclRefExpr", "MemberExpr") and (n.get("dk") in ("staticmember", "global") or n.get("mk") == "staticmember"):
+        return "const:" + (n.get("qn") or "").split("::")[-1]
+    return None
+
+
+def _field_root(n):
+    """the field of `this` an lvalue expression is rooted in: F, F[i], F.begin(), this->F ..."""
+    n = n.strip()
+    while True:
+        if n.k == "MemberExpr" and n.get("mk") == "field" and n.c and n.c[0].strip().k == "CXXThisExpr":
+            return n.get("n")
+        if n.k in ("CXXOperatorCallExpr", "ArraySubscriptExpr") and (n.k == "ArraySubscriptExpr" or n.op == "[]") and n.c:
+            n = n.c[0].strip()
+        elif n.k == "CXXMemberCallExpr" and n.c:
+            n = n.c[0].strip()
+        elif n.k == "MemberExpr" and n.c:
+            n = n.c[0].strip()
+        else:
+            return None
+
+
+def reader_defaults(hfns):
+    """standardised key -> set of values the reader classes give the key's storage before parsing (what a MISSING key means)"""
+    field_of = {}
+    for f in hfns:
+        for c in f.calls():
+            short = (c.callee or "").split("::")[-1]
+            if short not in ("add_key", "add_vectorised_key"):
+                continue
+            args = c.call_args()
+            lit = [m.get("v") for m in args[0].walk() if m.k == "StringLiteral"] if args else []
+            if not lit:
+                continue
+            for a in args[1:]:
+                a = a.strip()
+                if a.k == "UnaryOperator" and a.op == "&":
+                    fr = _field_root(a.c[0])
+                    if fr:
+                        field_of.setdefault(standardise(lit[0]), set()).add(fr)
+    defaults = {}
+    for f in hfns:
+        for m in f.walk():
+            fld, val = None, None
+            if m.k == "CXXMemberCallExpr" and (m.callee or "").endswith("::resize") and len(m.call_args()) == 2:
+                fld, val = _field_root(m.c[0]), _const_of(m.call_args()[1])
+            elif m.is_call() and (m.callee or "") == "std::fill" and len(m.call_args()) == 3:
+                fld, val = _field_root(m.call_args()[0]), _const_of(m.call_args()[2])
+            elif m.k == "BinaryOperator" and m.op == "=" and len(m.c) == 2:
+                fld, val = _field_root(m.c[0]), _const_of(m.c[1])
+            if fld and val is not None:
+                defaults.setdefault(fld, set()).add(val)
+    out = {}
+    for k, flds in field_of.items():
+        vals = set()
+        for fl_ in flds:
+            vals |= defaults.get(fl_, set())
+        out[k] = vals
+    return out
+
+
+def rule_g_omitted_only_at_reader_default(ctx, wfns, hfns):
+    """A key whose value comes from the image itself (geometry, scale factors, offsets - not the exam information) may be left out of the
+    header only when its value is what the reader assumes for a missing key.  Every condition around such an emission must therefore
+    hold whenever `value != reader default`: each conjunct is a disjunction with a disjunct `X != D` (or bare `X` for D = 0), X taken
+    from the data the value is computed from and D the default the reader classes give the key's storage."""
+    rd = reader_defaults(hfns)
+    n = 0
+    for f in wfns:
+        if f.short != "write_basic_interfile_image_header" or f.body is None:
+            continue
+        defs = LocalDefs(f)
+        exparams = {p["d"] for p in f.params if "ExamInfo" in p["t"]}
+
+        def roots(e, seen=None):
+            seen = seen if seen is not None else set()
+            out = set()
+            for m in e.walk():
+                if m.k != "DeclRefExpr" or m.get("d") is None or "stream" in (m.type or ""):
+                    continue
+                d = m.get("d")
+                if m.get("dk") == "param":
+                    out.add(d)
+                elif m.get("dk") == "local" and d not in seen:
+                    seen.add(d)
+                    vd = defs.decl.get(d)
+                    if vd is not None and vd.c:
+                        out |= roots(vd.c[0], seen)
+                    for w in defs.writes.get("v%d" % d, []):
+                        out |= roots(w, seen)
+            return out
+
+        for m in f.walk():
+            if m.k != "StringLiteral":
+                continue
+            txt = m.get("v") or ""
+            vect = False
+            mm = re.match(r"\s*([^:=\[\]]+?)\s*(\[[^\]]*\])?\s*:=\s*$", txt)
+            if mm:
+                keytxt, vect = mm.group(1), bool(mm.group(2))
+            elif re.fullmatch(r"[A-Za-z!][A-Za-z0-9 ()/_!]*", txt.strip()) and len(txt.strip()) > 3 and (_next_string_in_stream(m) or "").startswith("["):
+                keytxt, vect = txt.strip(), True
+            else:
+                continue
+            top = m
+            for a in m.ancestors():
+                if a.k == "CXXOperatorCallExpr" and a.op == "<<":
+                    top = a
+                else:
+                    break
+            ops = []
+            node = top
+            while node.k == "CXXOperatorCallExpr" and node.op == "<<" and len(node.c) == 2:
+                ops.insert(0, node.c[1])
+                node = node.c[0].strip()
+            after, vals = False, []
+            for o in ops:
+                if any(x is m for x in o.walk()):
+                    after = True
+                    continue
+                if after and o.strip().k not in ("StringLiteral", "CharacterLiteral"):
+                    # the index of a vectorised key is not its value
+                    if vect and not vals and o.strip().k == "DeclRefExpr" and "int" in (o.strip().type or "") and (_next_string_in_stream(m) or "").startswith("["):
+                        vect = "indexed"
+                        continue
+                    vals.append(o)
+                    break
+            if not vals:
+                continue
+            vroots = roots(vals[0])
+            if not vroots or vroots & exparams:
+                continue  # constant, or exam information (clause f)
+            conds = []
+            node = top
+            for a in top.ancestors():
+                if a.k == "IfStmt" and a.c:
+                    in_else = len(a.c) > 2 and any(x is node for x in a.c[2].walk()) if False else (len(a.c) > 2 and _contains(a.c[2], top))
+                    conds.append((a.c[0].strip(), in_else))
+            if not conds:
+                continue
+            k = standardise(keytxt)
+            if k in G_EXEMPT:
+                ctx.stats.setdefault("g_exempt", []).append(k)
+                continue
+            dflt = rd.get(k)
+            if not dflt:
+                ctx.unrec(f.qn, "key `%s` is written conditionally but no default of its storage in the reader classes was recognised" % k)
+                continue
+
+            def implied(c, neg=False):
+                """does c (neg: its negation) hold whenever value != default ?"""
+                c = c.strip()
+                if c.k == "UnaryOperator" and c.op == "!" and c.c:
+                    return implied(c.c[0], not neg)
+                if c.k == "CXXOperatorCallExpr" and c.op == "!" and c.c:
+                    return implied(c.c[-1], not neg)
+                if c.k == "BinaryOperator" and c.op in ("&&", "||"):
+                    conj = (c.op == "&&") != neg
+                    a, b = implied(c.c[0], neg), implied(c.c[1], neg)
+                    return (a and b) if conj else (a or b)
+                if c.k == "DeclRefExpr" and c.get("dk") == "local":
+                    vd = defs.decl.get(c.get("d"))
+                    if vd is not None and vd.c and not defs.writes.get("v%d" % c.get("d")):
+                        return implied(vd.c[0], neg)
+                    return False
+                x, d = None, None
+                ne, eq = ("!=", "==") if not neg else ("==", "!=")
+                if c.k in ("BinaryOperator", "CXXOperatorCallExpr") and c.op == ne and len(c.c) >= 2:
+                    a, b = c.c[-2], c.c[-1]
+                    if _const_of(b) is not None:
+                        x, d = a, _const_of(b)
+                    elif _const_of(a) is not None:
+                        x, d = b, _const_of(a)
+                elif not neg and c.k == "BinaryOperator" and c.op == ">" and _const_of(c.c[1]) == 0.0 and "unsigned" in (c.c[0].strip().type or ""):
+                    x, d = c.c[0], 0.0
+                elif not neg and _const_of(c) is None and not (c.k in ("BinaryOperator", "UnaryOperator") or (c.k == "CXXOperatorCallExpr" and c.op in ("==", "!=", "<", ">", "<=", ">=", "!", "&&", "||"))):
+                    x, d = c, 0.0  # truth value of X
+                if x is None:
+                    return False
+                return dflt == {d} and bool(roots(x) & vroots)
+
+            if len(dflt) != 1:
+                ctx.ob("C10.g-omitted-only-at-reader-default", f.qn, "key:" + k + ("[]" if vect else ""), False, top.where(), "the reader classes give the storage of key `%s` different defaults (%s): what a missing key means depends on the path through the reader" % (k, ", ".join(str(x) for x in sorted(dflt, key=str))))
+                n += 1
+                continue
+            bad = [(c, e) for c, e in conds if not implied(c, e)]
+            ok = not bad
+            ctx.ob(
+                "C10.g-omitted-only-at-reader-default",
+                f.qn,
+                "key:" + k + ("[]" if vect else ""),
+                ok,
+                top.where(),
+                "left out only when its value is the reader's default for a missing key (%s)" % ", ".join(str(x) for x in sorted(dflt, key=str))
+                if ok
+                else "key `%s` is also left out when `%s` fails, but a reader that does not find the key assumes %s - not that value: the image read back differs from the one written" % (k, key(bad[0][0], True)[:160], ", ".join(str(x) for x in sorted(dflt, key=str))),
+            )
+            n += 1
+    return n
+
+
+def _contains(tree, node):
+    return any(x is node for x in tree.walk())
+
+
 def run(ctx):
     ctx.explanation = (
         "Decides: (a) every key that the Interfile image header writer (and its helpers for exam information) emits is registered or "
@@ -479,6 +700,8 @@ def run(ctx):
     rule_e(ctx, iof)
     rule_f_independent_keys(ctx, ifns, accf)
     ctx.require_count("C10.f-independent-keys", 4)
+    rule_g_omitted_only_at_reader_default(ctx, ifns, hfns)
+    ctx.require_count("C10.g-omitted-only-at-reader-default", 3)
     ctx.require_count("C10.a-header-keys-agree", 25)
     ctx.require_count("C10.b-short-file-is-error", 2)
     ctx.require_count("C10.c-number-types-exhaustive", 3)
